@@ -370,7 +370,7 @@ func DriverMain(prop, tier string, seed int64, self, raceBin string) int {
 				cmd.Stderr = errf
 				cmd.Env = append(os.Environ(), "VERIF_DIR="+VerifDir)
 				if m.Race {
-					cmd.Env = append(cmd.Env, "GORACE=halt_on_error=0 history_size=2 log_path="+prefix+".race", "VCHECK_RACE_LOG="+prefix+".race")
+					cmd.Env = append(cmd.Env, "GORACE=halt_on_error=0 exitcode=0 history_size=2 log_path="+prefix+".race", "VCHECK_RACE_LOG="+prefix+".race")
 				}
 				if err := cmd.Start(); err != nil {
 					errf.Close()
@@ -600,7 +600,11 @@ func finish(m *Monitor, mg *merged, prop, tier string, seed int64, n int, start 
 			fmt.Printf("KNOWN-FINDING: property=%s %s (key=%s, reproduced %d times)\n", prop, f.Text, f.Key, cnt)
 		}
 	}
-	for _, o := range outs {
+	for i, o := range outs {
+		if i == 15 {
+			fmt.Printf("  ... and %d more violation signatures (see the evidence file)\n", len(outs)-i)
+			break
+		}
 		fmt.Printf("VIOLATION property=%s replay=%s\n", prop, o.path)
 		fmt.Printf("  key=%s count=%d\n  %s\n", o.key, mg.violByKey[o.key], tail(mg.firstByKey[o.key], 12))
 	}
